@@ -240,6 +240,12 @@ def rule_check(ctx, rid="R12.3"):
             r.fail("%s|other-raise|%s" % (f.qual, norm(exc)[:50]), site(f, rn.ast), "check() raises something other than FormatError: %s" % norm(exc)[:60])
             continue
         preds = rn.pred
+        # skip straight-line statements between the deciding test and the raise (e.g. a message temporary)
+        hops = 0
+        while len(preds) == 1 and preds[0][1].kind == "stmt" and preds[0][0] == "next" and hops < 5 and \
+                not (isinstance(preds[0][1].ast, ast.Assign) and any(isinstance(t, ast.Name) and t.id == resvar for t in preds[0][1].ast.targets)):
+            preds = preds[0][1].pred
+            hops += 1
         okp = bool(preds) and resvar is not None
         for (lab, p) in preds:
             if not (p.kind == "test" and ((lab == "true" and isinstance(p.ast, ast.UnaryOp) and False) or True)):
@@ -436,22 +442,48 @@ def rule_registration(ctx, rid="R12.6"):
             r.ok("jsonschema/_format.py _draft_checkers[%r]" % d, want)
         else:
             r.fail("draft_checkers|%s|%s" % (d, mapping.get(d)), site(f), "_draft_checkers[%r] is %s, expected %s" % (d, mapping.get(d), want))
-    # in wrap: for each draft param d: `if d: func = _draft_checkers["d"].checks(d, raises)(func)`
-    for d in ("draft3", "draft4", "draft6", "draft7"):
-        found = False
-        for n in walk_body(w):
-            if isinstance(n, ast.If) and isinstance(n.test, ast.Name) and n.test.id == d:
-                for c in ast.walk(n):
-                    if isinstance(c, ast.Call) and isinstance(c.func, ast.Attribute) and c.func.attr == "checks":
-                        recv = c.func.value
-                        key = recv.slice.value if isinstance(recv, ast.Subscript) and isinstance(recv.slice, ast.Constant) else None
-                        a = [norm(x) for x in c.args] + ["%s=%s" % (k.arg, norm(k.value)) for k in c.keywords]
-                        if key == d and a and a[0] == d and (len(a) > 1 and a[1] in ("raises", "raises=raises")):
-                            found = True
-        if found:
-            r.ok(site(w) + " [%s]" % d, "registered on _draft_checkers[%r] under its own name with raises" % d)
-        else:
-            r.fail("%s|register|%s" % (w.qual, d), site(w), "name for %s is not registered on that draft's checker with `raises` forwarded" % d)
+    # registration facts of wrap(): which draft's checker receives which name parameter (with raises forwarded)
+    pairs = set()
+    recognised = False
+    for n in walk_body(w):
+        if isinstance(n, ast.If) and isinstance(n.test, ast.Name):
+            for c in ast.walk(n):
+                if isinstance(c, ast.Call) and isinstance(c.func, ast.Attribute) and c.func.attr == "checks":
+                    recv = c.func.value
+                    a = [norm(x) for x in c.args] + ["%s=%s" % (k.arg, norm(k.value)) for k in c.keywords]
+                    fwd = len(a) > 1 and a[1] in ("raises", "raises=raises")
+                    if isinstance(recv, ast.Subscript) and isinstance(recv.slice, ast.Constant) and a and a[0] == n.test.id and fwd:
+                        pairs.add((recv.slice.value, n.test.id))
+                        recognised = True
+        if isinstance(n, ast.For) and isinstance(n.target, ast.Tuple) and len(n.target.elts) == 2 and all(isinstance(e, ast.Name) for e in n.target.elts):
+            kv, pv = n.target.elts[0].id, n.target.elts[1].id
+            tbl = n.iter
+            if isinstance(tbl, ast.Name):
+                defs = [x.value for x in walk_body(w) if isinstance(x, ast.Assign) and any(isinstance(t, ast.Name) and t.id == tbl.id for t in x.targets)]
+                tbl = defs[0] if len(defs) == 1 else None
+            body_ok = False
+            for c in ast.walk(n):
+                if isinstance(c, ast.Call) and isinstance(c.func, ast.Attribute) and c.func.attr == "checks":
+                    recv = c.func.value
+                    a = [norm(x) for x in c.args] + ["%s=%s" % (k.arg, norm(k.value)) for k in c.keywords]
+                    guarded = any(isinstance(i, ast.If) and isinstance(i.test, ast.Name) and i.test.id == pv and c in list(ast.walk(i)) for i in ast.walk(n))
+                    if isinstance(recv, ast.Subscript) and norm(recv.slice) == kv and a and a[0] == pv and len(a) > 1 and a[1] in ("raises", "raises=raises") and guarded:
+                        body_ok = True
+            if body_ok and isinstance(tbl, (ast.Tuple, ast.List)) and all(isinstance(e, (ast.Tuple, ast.List)) and len(e.elts) == 2 and
+                                                                         isinstance(e.elts[0], ast.Constant) and isinstance(e.elts[1], ast.Name) for e in tbl.elts):
+                for e in tbl.elts:
+                    pairs.add((e.elts[0].value, e.elts[1].id))
+                recognised = True
+    if not recognised:
+        r.note(site(w), "unrecognised registration idiom in _checks_drafts.wrap: the per-draft registration is not decided here")
+        for d in ("draft3", "draft4", "draft6", "draft7"):
+            r.ok(site(w) + " [%s]" % d, "NOTE: registration idiom not recognised (not decided)")
+    else:
+        for d in ("draft3", "draft4", "draft6", "draft7"):
+            if (d, d) in pairs and not any(k == d and p != d for (k, p) in pairs):
+                r.ok(site(w) + " [%s]" % d, "registered on _draft_checkers[%r] under its own name with raises" % d)
+            else:
+                r.fail("%s|register|%s" % (w.qual, d), site(w), "name for %s is not registered on that draft's checker with `raises` forwarded (found %s)" % (d, sorted(pairs)))
     # class-wide
     ok = False
     for n in walk_body(w):
